@@ -280,9 +280,9 @@ def runP (p : Nat) (op : String) (args : List String) (impl : String) : Option (
     let nv ← parseHex? nv; let e ← pEnts p e
     some (sOut sSparse (do let s ← mkSparse nv e; pure s.neg), judgeSparse (validEnts nv e) impl (specMap (fun x => 0 - x) (tblOfEnts nv e)))
   | "siszero", [nv, e] =>
-    -- `is_zero` = structural equality with `zero()` (0 variables, no entry)
+    -- `is_zero` ⇔ the denoted table is the 0-variable `[0]` (same statement as for the dense form)
     let nv ← parseHex? nv; let e ← pEnts p e
-    some (sOut b01 (do let s ← mkSparse nv e; pure s.isZero), judge (validEnts nv e) impl (b01 (nv == 0 && e.isEmpty)))
+    some (sOut b01 (do let s ← mkSparse nv e; pure s.isZero), judge (validEnts nv e) impl (b01 (tblOfEnts nv e).isZeroPoly))
   | "snumvars", [nv, e] =>
     let nv ← parseHex? nv; let e ← pEnts p e
     some (sOut (fun (s : Sparse (Fp p)) => hex s.numVars ++ " " ++ hex s.numVars) (mkSparse nv e), judge (validEnts nv e) impl (hex nv ++ " " ++ hex nv))
